@@ -519,7 +519,7 @@ def run(ctx, rep):
     rep.rule('C05.I', "invariant model: Σ prob·rate = 1 and Σ prob = 1 as rational identities; zero-rate block aligned with the invariant probability; mu applied after")
     rep.rule('C05.N', "discretised models: rates = X / Σ(X·P) with the reported P, P defined first and summing to one, mid-point quantiles with the branch's K, mu last")
     rep.rule('C05.A', "in-place updates of cached rates/probabilities only hit a tensor built earlier in the same call on every path (no accumulation across evaluations)")
-    rep.not_decided += ["non-negativity for all shapes", "batched shapes", "quantile accuracy"]
+    rep.not_decided += ["non-negativity for all shapes", "broadcasting of batched shapes (beyond whole-tensor reductions)", "quantile accuracy"]
     rep.rule('C05.G', "site models outside the audited set: block-vector abstract evaluation of the refresh method, Σ prob·rate = 1 (mu) as a polynomial identity with linear sums, for every combination of optional members")
     rep.rule('C05.C', "constant model: one category, probability 1, rate mu (1 without mu); every SiteModel class of the package is decided by one of the rules")
     rep.rule('C05.M', "the tensors that rates() / probabilities() hand out are the site model's own caches: no consumer in the package updates them in place, directly or through a local name or view")
